@@ -252,6 +252,8 @@ pub mod verif {
     pub use crate::model::verif_external_data::*;
     // C23: sequence-number log of the buffer pool's critical sections.
     pub use crate::buffer_pool::verif_log as pool_log;
+    // C22: lock-order log of the plan cache's critical sections.
+    pub use crate::graph::verif_plan_log as plan_log;
     // C12/C10: operator type rules, graph-level type/shape inference
     // (the loaded graph itself is reached through `Model::verif_graph`).
     pub use crate::infer_shapes::{InferError, InferResult, InferShapeOptions, Shape, infer_shapes};
